@@ -137,8 +137,10 @@ def callback_constants(repo):
     cls = repo.cls(PARSER, 'HOLTransformer')
     special = {'And': 'conj', 'Or': 'disj', 'Implies': 'implies', 'Not': 'neg'}
     res = {}
+    from ..inline import inlined, contains_call
     for name, f in cls.methods.items():
         consts = set()
+        f = inlined(f, contains_call('Const', *special))[0]
         for r in returns_of(f.node):
             v = r.value
             if isinstance(v, ast.Call):
@@ -375,6 +377,8 @@ def _binder_const(cls, cb):
     f = cls.methods.get(cb)
     if f is None:
         return None
+    from ..inline import inlined, contains_call
+    f = inlined(f, contains_call('Const'))[0]      # `return self._binder("all", ..)`: the constant is named at the call
     for n in ast.walk(f.node):
         if isinstance(n, ast.Call) and call_name(n) == 'Const' and n.args and isinstance(n.args[0], ast.Constant):
             return n.args[0].value
